@@ -260,6 +260,10 @@ pub trait PartDyn: Sync + Send {
     fn replay(&self, case: Value) -> Result<(), Failure>;
 }
 
+fn slow_ms() -> Option<u64> {
+    std::env::var("VERIF_SLOW_MS").ok().and_then(|s| s.parse().ok())
+}
+
 fn splitmix(mut x: u64) -> u64 {
     x = x.wrapping_add(0x9E3779B97F4A7C15);
     let mut z = x;
@@ -356,7 +360,16 @@ where
                 *evals.borrow_mut() += 1;
             }
             o.want_sample = false;
+            let t0 = Instant::now();
             let r = guarded(|| (self.check)(&case, &mut o));
+            if let Some(ms) = slow_ms() {
+                // diagnostics only (never a verdict): report slow cases
+                if t0.elapsed().as_millis() as u64 > ms {
+                    let mut s = serde_json::to_string(&case).unwrap_or_default();
+                    s.truncate(6000);
+                    eprintln!("SLOW-CASE {}ms part={} shard={}: {}", t0.elapsed().as_millis(), self.name, shard, s);
+                }
+            }
             if o.want_sample && !o.frozen && samples.borrow().len() < 2 {
                 if let Ok(v) = serde_json::to_value(&case) {
                     samples.borrow_mut().push(compact_sample(v));
